@@ -11,17 +11,23 @@ import (
 	"os"
 	"os/exec"
 	"strings"
+	"time"
 
 	"grol.io/grol/ast"
 	. "verifharness/common"
 )
 
 type modelProc struct {
-	cmd *exec.Cmd
-	in  io.WriteCloser
-	out *bufio.Reader
-	n   int
+	cmd      *exec.Cmd
+	in       io.WriteCloser
+	out      *bufio.Reader
+	n        int
+	timeouts int
 }
+
+// the reference is a pure function with a depth bound (fuel) but no step bound: a program with nested
+// unbounded loops can keep it busy for very long.  Such a case is abandoned (and not registered).
+const modelDeadline = 3 * time.Second
 
 func modelPath() string {
 	if p := os.Getenv("C01_MODEL"); p != "" {
@@ -76,9 +82,31 @@ func (m *modelProc) ask(line string) string {
 	if _, err := fmt.Fprintf(m.in, "%s %s\n", id, line); err != nil {
 		return "SKIP model-dead"
 	}
-	resp, err := m.out.ReadString('\n')
-	if err != nil {
-		return "SKIP model-dead"
+	type rd struct {
+		s   string
+		err error
+	}
+	ch := make(chan rd, 1)
+	out := m.out
+	go func() {
+		s, err := out.ReadString('\n')
+		ch <- rd{s, err}
+	}()
+	var resp string
+	select {
+	case r := <-ch:
+		if r.err != nil {
+			return "SKIP model-dead"
+		}
+		resp = r.s
+	case <-time.After(modelDeadline):
+		m.timeouts++
+		_ = m.cmd.Process.Kill()
+		_ = m.cmd.Wait()
+		if nm := startModel(); nm != nil {
+			m.cmd, m.in, m.out = nm.cmd, nm.in, nm.out
+		}
+		return "TIMEOUT"
 	}
 	resp = strings.TrimRight(resp, "\n")
 	if !strings.HasPrefix(resp, id+" ") {
